@@ -117,6 +117,9 @@ enum Step {
     Interval(u64, Beh, u64),
     /// wait for the message-fed flag
     WaitFlag,
+    /// two sleeps of this task with the same deadline, both polled once; the one polled first
+    /// is dropped, the other one awaited
+    TwinDropFirst(u64),
 }
 
 /// (task, step index, now ms, value)
@@ -237,6 +240,17 @@ async fn run_steps(task: usize, steps: Vec<Step>, log: Log, mut flag: watch::Rec
             }
             Step::WaitFlag => {
                 wait_flag(&mut flag).await;
+                push(0);
+            }
+            Step::TwinDropFirst(d) => {
+                let a = Box::pin(sleep(ms(d)));
+                let mut a = Some(a);
+                let b = sleep(ms(d));
+                tokio::pin!(b);
+                let _ = poll_once(a.as_mut().unwrap().as_mut()).await;
+                let _ = poll_once(b.as_mut()).await;
+                drop(a.take());
+                b.await;
                 push(0);
             }
         }
@@ -413,6 +427,12 @@ fn reference(task: usize, steps: &[Step], origin: u64, stop: Option<u64>) -> Ref
                         now += gap;
                     }
                 }
+            }
+            Step::TwinDropFirst(d) => {
+                out.max_deadline = out.max_deadline.max(now + d);
+                live_deadline = Some(now + d);
+                now += d;
+                emit!(i, 0);
             }
             Step::WaitFlag => {
                 out.max_deadline = out.max_deadline.max(flag_at);
@@ -601,6 +621,8 @@ fn alphabet(tier: Tier) -> Vec<Step> {
     }
     a.push(Step::IntervalReset(S));
     a.push(Step::IntervalReset(2 * S));
+    a.push(Step::TwinDropFirst(S));
+    a.push(Step::TwinDropFirst(2 * S));
     for p in [S, 2 * S] {
         for beh in [Beh::Burst, Beh::Delay, Beh::Skip] {
             for gap in [0u64, p / 2, p + 3, p + 6, 2 * p + 6, 5 * S] {
